@@ -6,7 +6,8 @@
 //   U <input>                  MakeUncompressedStream (hook): "len=<L> h=<hash of the bytes> [hex=<bytes> if L <= 600] dec=<ok|fail>"
 //   C <api> <q> <lgwin> <mode> <input> <buf>
 //        one-shot BrotliEncoderCompress, api R (enc::encode::BrotliEncoderCompress) or F (C ABI);
-//        buf = absolute size, or B / B-k / B+k relative to BrotliEncoderMaxCompressedSize(len)
+//        buf = absolute size, or B / B-k / B+k relative to BrotliEncoderMaxCompressedSize(len),
+//        or S / S-k / S+k relative to the size of the stored stream for this input
 //        "ret=<0|1> size=<encoded_size> buf=<b> bound=<B> guard=<ok|BROKEN> dec=<ok|fail|na> fb=<0|1>
 //         inner=<result>,<finished>,<total_out>|na"
 //        guard: 64 canary bytes behind the buffer are intact (C ABI) ; fb: output equals the stored stream ;
@@ -224,7 +225,15 @@ fn f_oneshot(t: &[&str]) -> String {
         Err(e) => return e,
     };
     let bs = t[6];
-    let bufsize: usize = if bs == "B" {
+    // S = size of the stored stream MakeUncompressedStream produces for this input
+    let stored_size = || stored(&input).map(|v| v.len()).unwrap_or(0);
+    let bufsize: usize = if bs == "S" {
+        stored_size()
+    } else if let Some(k) = bs.strip_prefix("S-") {
+        stored_size().saturating_sub(k.parse().unwrap())
+    } else if let Some(k) = bs.strip_prefix("S+") {
+        stored_size() + k.parse::<usize>().unwrap()
+    } else if bs == "B" {
         bound
     } else if let Some(k) = bs.strip_prefix("B-") {
         bound.saturating_sub(k.parse().unwrap())
